@@ -86,6 +86,26 @@ def main() -> int:
     bad["bet5"][-1] += 5000
     expect("Radial_Trace: last shell boundary moved by 0.05 A", _run(ctx, "Radial_Trace", "Radial_Trace.cfg", [good, bad], "st_rad"), [1])
 
+    # G04: a true distance record vs the same record with the sign fold forgotten (pi - theta reported)
+    base = dict(ev="dist", err="", exact=True, q=[1, 1, 1, 1], p=[-2, 0, 0, 0], rows=[], a=[], b=[], x=[0, 0, 1], y=[0, 0, 1], arr=[], k=0,
+                upper=True, out=0, out6=2, idx=[], **{"is": False})
+    bad = copy.deepcopy(base)
+    bad["out6"] = 4
+    cover = dict(base, ev="cover", rows=[[-2, 0, 0, 0], [1, -1, 1, 1]], out=[[2, 0, 0, 0], [1, -1, 1, 1], [-2, 0, 0, 0], [-1, 1, -1, -1]])
+    badcover = dict(cover, out=[[2, 0, 0, 0], [-2, 0, 0, 0], [1, -1, 1, 1], [-1, 1, -1, -1]])
+    expect("Quat_Trace: unfolded quaternion angle / interleaved double cover", _run(ctx, "Quat_Trace", "Quat_Trace.cfg", [base, bad, cover, badcover], "st_quat"), [1, 3])
+
+    # G07: a true parameter-file history vs one where the edit hit the second matching line / a call was dropped
+    ln = lambda k, v, c=False: dict(key=k, val=v, cmt=c)
+    h = lambda tid, steps: [{**dict(tid=tid, p=[], v=0, out=0, outcmt=False, err=""), **st} for st in steps]
+    good = h(0, [dict(op="init", lines=[ln([1, 2], 5), ln([1], 7, True)]), dict(op="modify", p=[1], v=3, lines=[ln([1], 3), ln([1], 7, True)]),
+                 dict(op="read", p=[1], out=3, lines=[ln([1], 3), ln([1], 7, True)])])
+    bad = h(1, [dict(op="init", lines=[ln([1, 2], 5), ln([1], 7, True)]), dict(op="modify", p=[1], v=3, lines=[ln([1, 2], 5), ln([1], 3)]),
+                dict(op="read", p=[1], out=3, lines=[ln([1, 2], 5), ln([1], 3)])])
+    dropped = h(2, [dict(op="init", lines=[ln([2], 5)]), dict(op="read", p=[2], out=4, lines=[ln([2], 4)])])
+    rej = ctx.validate("KVFile_Trace", "KVFile_Trace.cfg", good + bad + dropped, name="st_kv")
+    expect("KVFile_Trace: edit of the wrong line / unlogged edit before a read", rej, [1, 2])
+
     # negative model configurations (each must be found by TLC)
     try:
         ctx.mutant("Fold", ctx.cfg("st_fold.cfg", "SPECIFICATION Spec\nCONSTANTS\n  N = 3\n  Weights = {1, 2}\n  Bug = \"zeroIndexFalsy\"\n  AllowSelfTouch = FALSE\nINVARIANT Symmetric\n"), "Symmetric")
